@@ -959,12 +959,17 @@ func orderByBindingsChecker() ClauseHook {
 				return nil, fmt.Errorf("order by binding %q unknown; available bindings are %v", cfg.Binding, s.OutputBindings())
 			}
 		}
-		// If dups exist rewrite the order by SortConfig.
+		// If dups exist rewrite the order by SortConfig keeping the first
+		// occurrence of each binding, so the order of the keys is preserved.
 		if dups {
-			s.orderBy = table.SortConfig{}
-			for b, d := range seen {
-				s.orderBy = append(s.orderBy, table.SortConfig{{Binding: b, Desc: d}}...)
+			orderBy, added := table.SortConfig{}, make(map[string]bool)
+			for _, cfg := range s.orderBy {
+				if !added[cfg.Binding] {
+					added[cfg.Binding] = true
+					orderBy = append(orderBy, cfg)
+				}
 			}
+			s.orderBy = orderBy
 		}
 		return hook, nil
 	}
